@@ -567,6 +567,30 @@ theorem efjc_distance_published (F Lp Lc St kT : ℝ) (hF : 0 < F) (hLp : 0 < Lp
 example : ∃ F Lp Lc St kT : ℝ, 0 < F ∧ 0 < Lp ∧ 0 < Lc ∧ 0 < St ∧ 0 < kT :=
   ⟨10, 0.7, 16, 750, 4.11, by norm_num, by norm_num, by norm_num, by norm_num, by norm_num⟩
 
+/-- The Langevin function `coth x - 1/x` is strictly increasing on `x > 0` (derivative `1/x² - 1/sinh² x > 0`
+    because `sinh x > x`), so `efjc_distance` — below its overflow guard, `2·F·Lp/kT < 500` — is strictly
+    increasing in the force: there the model IS a monotone problem for `efjc_force = invert(efjc_distance)`.
+    (At the guard itself the code's value steps DOWN by `2/(e¹⁰⁰⁰-1)·Lc·(1+F/St)`, see `coth_guard_error`.) -/
+theorem efjc_distance_strictMono_below_guard (F1 F2 Lp Lc St kT : ℝ) (h1 : 0 < F1) (h12 : F1 < F2) (hLp : 0 < Lp)
+    (hLc : 0 < Lc) (hSt : 0 < St) (hkT : 0 < kT) (hg : 2 * F2 * Lp / kT < 500) :
+    efjcDistance F1 Lp Lc St kT < efjcDistance F2 Lp Lc St kT :=
+  efjc_distance_strictMono_aux F1 F2 Lp Lc St kT h1 h12 hLp hLc hSt hkT hg
+
+example : ∃ F1 F2 Lp Lc St kT : ℝ, 0 < F1 ∧ F1 < F2 ∧ 0 < Lp ∧ 0 < Lc ∧ 0 < St ∧ 0 < kT ∧ 2 * F2 * Lp / kT < 500 :=
+  ⟨1, 100, 0.7, 16, 750, 4.11, by norm_num, by norm_num, by norm_num, by norm_num, by norm_num, by norm_num,
+    by norm_num⟩
+
+/-- `twlc_distance` below the critical force, inside the validity region `(g0 + g1·Fc)² < St·C`, is strictly
+    increasing in the force (above `Fc` monotonicity depends on the twist parameters and is NOT proved). -/
+theorem twlc_distance_strictMono_below_Fc (F1 F2 Lp Lc St C g0 g1 Fc kT : ℝ) (h1 : 0 < F1) (h12 : F1 < F2)
+    (h2 : F2 ≤ Fc) (hLp : 0 < Lp) (hLc : 0 < Lc) (hkT : 0 < kT) (hC : 0 < C)
+    (hval : (g0 + g1 * Fc) ^ 2 < St * C) :
+    twlcDistance F1 Lp Lc St C g0 g1 Fc kT < twlcDistance F2 Lp Lc St C g0 g1 Fc kT :=
+  twlc_distance_strictMono_below_Fc_aux F1 F2 Lp Lc St C g0 g1 Fc kT h1 h12 h2 hLp hLc hkT hC hval
+
+-- the published DNA values meet the hypotheses
+example : ((-637 : ℝ) + 17 * 30.6) ^ 2 < 1500 * 440 := by norm_num
+
 /-- Note (outside the property's range, forces are positive there): the second guard of the code, `abs(x) < -500`,
     never holds, so for arguments `≤ -500` the code's `coth` is `+1` although the function tends to `-1`. -/
 theorem coth_negative_guard_dead : coth (-600 : ℝ) = 1 := by
